@@ -88,7 +88,7 @@ theorem writes_tswitch (bind : Option String) (e : GExpr) (cs : List GTCase) (d 
 
 structure FrameAt (n : Nat) : Prop where
   bl : ∀ {F ρ w ss ρ' sig w'}, execBlockG n F ρ w ss = .ok (ρ', sig) w' →
-        ∃ pre ρ'', ρ' = pre ++ ρ'' ∧ FrameEq (writesStmts ss) ρ ρ''
+        ∃ pre ρ'', ρ' = pre ++ ρ'' ∧ FrameEq (writesStmts ss) ρ ρ'' ∧ ∀ x ∈ pre.map (·.1), x ∈ declTop ss
   ne : ∀ {F ρ w ss ρ' sig w'}, nestedG n F ρ w ss = .ok (ρ', sig) w' → FrameEq (writesStmts ss) ρ ρ'
   ex : ∀ {F ρ w s ρ' sig w'}, execG n F ρ w s = .ok (ρ', sig) w' →
         ∃ pre ρ'', ρ' = pre ++ ρ'' ∧ FrameEq (writesStmt s) ρ ρ'' ∧ pre.map (·.1) = declScope s []
@@ -100,52 +100,57 @@ structure FrameAt (n : Nat) : Prop where
 theorem frame0 : FrameAt 0 := by
   constructor <;> intros <;> simp_all [execBlockG, nestedG, execG, switchG, tswitchG]
 
+theorem declTop_cons (s : GStmt) (rest : List GStmt) (x : String) :
+    x ∈ declTop (s :: rest) ↔ x ∈ declScope s [] ∨ x ∈ declTop rest := by
+  cases s <;> simp [declTop, declScope]
+
+theorem FrameEq.split_prefix {W : Names} : ∀ (a b c : GEnv), FrameEq W (a ++ b) c →
+    ∃ c1 c2, c = c1 ++ c2 ∧ FrameEq W b c2 ∧ c1.map (·.1) = a.map (·.1)
+  | [], b, c, hf => ⟨[], c, rfl, hf, rfl⟩
+  | hd :: tl, b, c, hf => by
+    cases hf with
+    | cons hv ht =>
+      obtain ⟨c1, c2, ec, fc, hk⟩ := FrameEq.split_prefix tl b _ ht
+      exact ⟨(_, _) :: c1, c2, by rw [ec]; rfl, fc, by simp [hk]⟩
+
 theorem frameB (n : Nat) (ih : FrameAt n) {F ρ w ss ρ' sig w'}
     (h : execBlockG (n+1) F ρ w ss = .ok (ρ', sig) w') :
-    ∃ pre ρ'', ρ' = pre ++ ρ'' ∧ FrameEq (writesStmts ss) ρ ρ'' := by
+    ∃ pre ρ'', ρ' = pre ++ ρ'' ∧ FrameEq (writesStmts ss) ρ ρ'' ∧ ∀ x ∈ pre.map (·.1), x ∈ declTop ss := by
   cases ss with
   | nil =>
     rw [execBlockG.eq_def] at h; simp only at h
     cases h
-    exact ⟨[], ρ, rfl, FrameEq.refl _ _⟩
+    exact ⟨[], ρ, rfl, FrameEq.refl _ _, by simp⟩
   | cons s rest =>
     rw [execBlockG.eq_def] at h; simp only at h
     ocall h1 p w1 : execG n F ρ w s
     obtain ⟨ρ1, sig1⟩ := p
-    obtain ⟨pre1, ρ1'', e1, f1, _⟩ := ih.ex h1
+    obtain ⟨pre1, ρ1'', e1, f1, hk1⟩ := ih.ex h1
     have f1' : FrameEq (writesStmts (s :: rest)) ρ ρ1'' :=
       f1.mono (fun x hx => by simp [writesStmts, hx])
+    have hpre1 : ∀ x ∈ pre1.map (·.1), x ∈ declTop (s :: rest) := by
+      intro x hx; rw [hk1] at hx; exact (declTop_cons s rest x).mpr (Or.inl hx)
     cases sig1 <;> simp only at h
-    · obtain ⟨pre2, ρ2'', e2, f2⟩ := ih.bl h
+    · obtain ⟨pre2, ρ2'', e2, f2, hk2⟩ := ih.bl h
       subst e1
-      -- ρ1 = pre1 ++ ρ1'' ; FrameEq W ρ1 ρ2''
-      have hl : ρ2''.length = pre1.length + ρ1''.length := by
-        rw [← f2.length]; simp
       have f2' : FrameEq (writesStmts (s :: rest)) (pre1 ++ ρ1'') ρ2'' :=
         f2.mono (fun x hx => by simp [writesStmts, hx])
-      -- split ρ2'' along pre1
-      have key : ∀ (a b c : GEnv), FrameEq (writesStmts (s :: rest)) (a ++ b) c →
-          ∃ c1 c2, c = c1 ++ c2 ∧ FrameEq (writesStmts (s :: rest)) b c2 := by
-        intro a
-        induction a with
-        | nil => intro b c hf; exact ⟨[], c, rfl, hf⟩
-        | cons hd tl iha =>
-          intro b c hf
-          cases hf with
-          | cons hv ht =>
-            obtain ⟨c1, c2, ec, fc⟩ := iha b _ ht
-            exact ⟨(_, _) :: c1, c2, by rw [ec]; rfl, fc⟩
-      obtain ⟨c1, c2, ec, fc⟩ := key pre1 ρ1'' ρ2'' f2'
-      exact ⟨pre2 ++ c1, c2, by rw [e2, ec, List.append_assoc], f1'.trans fc⟩
-    · cases h; exact ⟨pre1, ρ1'', e1, f1'⟩
-    · cases h; exact ⟨pre1, ρ1'', e1, f1'⟩
+      obtain ⟨c1, c2, ec, fc, hc⟩ := FrameEq.split_prefix pre1 ρ1'' ρ2'' f2'
+      refine ⟨pre2 ++ c1, c2, by rw [e2, ec, List.append_assoc], f1'.trans fc, ?_⟩
+      intro x hx
+      simp only [List.map_append, List.mem_append] at hx
+      rcases hx with hx | hx
+      · exact (declTop_cons s rest x).mpr (Or.inr (hk2 x hx))
+      · rw [hc] at hx; exact hpre1 x hx
+    · cases h; exact ⟨pre1, ρ1'', e1, f1', hpre1⟩
+    · cases h; exact ⟨pre1, ρ1'', e1, f1', hpre1⟩
 
 theorem frameN (n : Nat) (ih : FrameAt n) {F ρ w ss ρ' sig w'}
     (h : nestedG (n+1) F ρ w ss = .ok (ρ', sig) w') : FrameEq (writesStmts ss) ρ ρ' := by
   rw [nestedG.eq_def] at h; simp only at h
   ocall h1 p w1 : execBlockG n F ρ w ss
   obtain ⟨ρ1, sig1⟩ := p
-  obtain ⟨pre, ρ'', e1, f1⟩ := ih.bl h1
+  obtain ⟨pre, ρ'', e1, f1, _⟩ := ih.bl h1
   simp only at h
   cases h
   subst e1
